@@ -34,6 +34,30 @@ def getMode (toks : List String) : Option Bool :=
   | some "valid" => some false
   | _ => none
 
+/-- `mode=full|valid|other` (`other`: any string the mode chain does not know) -/
+def getModeO (toks : List String) : Option (Option Bool) :=
+  match kv toks "mode" with
+  | some "full" => some (some true)
+  | some "valid" => some (some false)
+  | some "other" => some none
+  | _ => none
+
+def getCls (toks : List String) : Option Gen.ConvCls :=
+  match kv toks "cls" with
+  | some "data" => some .data
+  | some "dataAdjoint" => some .dataAdjoint
+  | some "filter" => some .filter
+  | some "filterAdjoint" => some .filterAdjoint
+  | _ => none
+
+/-- `.H` taken `h` times, starting from class `c` with constructor arguments `g` -/
+def iterH : Nat → Gen.ConvCls → LinopCfg → Except String (Gen.ConvCls × LinopCfg)
+  | 0, c, g => .ok (c, g)
+  | h + 1, c, g =>
+    match linopAdjoint c g with
+    | .error e => .error e
+    | .ok (c', g') => iterH h c' g'
+
 def getBool (toks : List String) (k : String) : Option Bool :=
   match kv toks k with
   | some "1" => some true
@@ -58,23 +82,34 @@ def handle (toks : List String) : String :=
   let getA (k : String) := (kv toks k).bind parseGIList?
   match toks.head? with
   | some "conv" =>
-    match getL "dsh", getL "fsh", getMode toks, optList toks "st", getBool toks "mc", getDt toks, getA "d", getA "f" with
-    | some dsh, some fsh, some full, some st, some mc, some (cd, cf, _), some d, some f =>
+    match getL "dsh", getL "fsh", getModeO toks, optList toks "st", getBool toks "mc", getDt toks, getA "d", getA "f" with
+    | some dsh, some fsh, some mode, some st, some mc, some (cd, cf, _), some d, some f =>
       if d.size ≠ (shapeProd dsh).toNat ∨ f.size ≠ (shapeProd fsh).toNat then "err size" else
-      reply (convolve dsh fsh full st mc cd cf d f)
+      reply (convolveM dsh fsh mode st mc cd cf d f)
     | _, _, _, _, _, _, _, _ => "err bad-op"
   | some "dadj" =>
-    match getL "dsh", getL "fsh", getMode toks, optList toks "st", getBool toks "mc", getDt toks, getL "ysh", getA "y", getA "f" with
-    | some dsh, some fsh, some full, some st, some mc, some (cd, cf, cy), some ysh, some y, some f =>
+    match getL "dsh", getL "fsh", getModeO toks, optList toks "st", getBool toks "mc", getDt toks, getL "ysh", getA "y", getA "f" with
+    | some dsh, some fsh, some mode, some st, some mc, some (cd, cf, cy), some ysh, some y, some f =>
       if y.size ≠ (shapeProd ysh).toNat ∨ f.size ≠ (shapeProd fsh).toNat then "err size" else
-      reply (adjoint GI.conj GI.rePart true dsh fsh full st mc cd cf cy ysh y f)
+      reply (adjointM GI.conj GI.rePart true dsh fsh mode st mc cd cf cy ysh y f)
     | _, _, _, _, _, _, _, _, _ => "err bad-op"
   | some "fadj" =>
-    match getL "dsh", getL "fsh", getMode toks, optList toks "st", getBool toks "mc", getDt toks, getL "ysh", getA "y", getA "d" with
-    | some dsh, some fsh, some full, some st, some mc, some (cd, cf, cy), some ysh, some y, some d =>
+    match getL "dsh", getL "fsh", getModeO toks, optList toks "st", getBool toks "mc", getDt toks, getL "ysh", getA "y", getA "d" with
+    | some dsh, some fsh, some mode, some st, some mc, some (cd, cf, cy), some ysh, some y, some d =>
       if y.size ≠ (shapeProd ysh).toNat ∨ d.size ≠ (shapeProd dsh).toNat then "err size" else
-      reply (adjoint GI.conj GI.rePart false dsh fsh full st mc cd cf cy ysh y d)
+      reply (adjointM GI.conj GI.rePart false dsh fsh mode st mc cd cf cy ysh y d)
     | _, _, _, _, _, _, _, _, _ => "err bad-op"
+  -- the Linop classes, interpreted from Gen.ConvLinops: class `cls` built with shape argument `sh` and frozen array
+  -- `arr` (shape `ash`), `.H` taken `H` times, then applied to `x` (shape `ish`)
+  | some "linop" =>
+    match getCls toks, getI "H", getL "sh", getL "ash", getModeO toks, optList toks "st", getBool toks "mc",
+        getBool toks "ca", getBool toks "ci", getL "ish", getA "arr", getA "x" with
+    | some c, some h, some sh, some ash, some mode, some st, some mc, some ca, some ci, some ish, some arr, some x =>
+      if arr.size ≠ (shapeProd ash).toNat ∨ x.size ≠ (shapeProd ish).toNat ∨ h < 0 ∨ h > 4 then "err size" else
+      match iterH h.toNat c { shapeArg := sh, arrShape := ash, mode := mode, strides := st, mc := mc } with
+      | .error e => s!"err {e}"
+      | .ok (c', g') => reply (linopApply GI.conj GI.rePart c' g' ca ci arr ish x)
+    | _, _, _, _, _, _, _, _, _, _, _, _ => "err bad-op"
   -- the 1-D single-channel layer the theorems are about (domain: full, or valid with m ≥ n; s ≥ 1)
   | some "conv1" =>
     match getI "m", getI "n", getI "s", getMode toks, getA "d", getA "f" with
